@@ -136,9 +136,27 @@ def run(ctx):
         if not res.feasible:
             continue
         rst, rnew = [(st, new) for st, new in res.stmts if isinstance(st, ast.Return)][-1]
+        from .. import consteval as _cev18
         for key in ('tau0', 'tau1'):
-            if res.polarity("key == '%s'" % key) is True:
-                tau_paths.setdefault(key, []).append((rst, ' ; '.join(norm(new) for st, new in res.stmts)))
+            # the path is the one taken for this key when every condition the key decides has the polarity the path took
+            decided, taken = 0, True
+            for e_, x, pol in res.conds:
+                v_ = _cev18.ev(x, {'key': key})
+                if v_ is _cev18.UNK:
+                    continue
+                decided += 1
+                if bool(v_) != pol:
+                    taken = False
+            if not (decided and taken):
+                continue
+            # header fields read on it, with the key known (a field chosen through a table indexed by the key is that entry)
+            fields = []
+            for st, new in res.stmts:
+                for n_ in walk_expr(new):
+                    if isinstance(n_, ast.Subscript) and isinstance(n_.value, ast.Subscript) and const_str(n_.value.slice) == 'header':
+                        fv = _cev18.ev(n_.slice, {'key': key})
+                        fields.append(fv if fv is not _cev18.UNK else norm(n_.slice))
+            tau_paths.setdefault(key, []).append((rst, ' ; '.join("['header']['%s']" % f_ for f_ in fields)))
         call = rnew.value
         if isinstance(call, ast.Call) and (dotted(call.func) or '').endswith('PseudoNetCDFVariable') and kw(call, 'values') is not None \
                 and any(isinstance(k, ast.keyword) and k.arg is None for k in call.keywords):
